@@ -94,8 +94,14 @@ func (m *MatchWinbox) Match(cx *layer4.Connection) (bool, error) {
 		return false, err
 	}
 
-	// What has arrived of a message of two chunks may end inside the second chunk: wait for the rest of it
-	if missing := missingChunkBytes(buf[:2+n]); missing > 0 {
+	// What has arrived of a message of two chunks may end right behind the first chunk (a full chunk that
+	// is no message by itself) or inside the second chunk: wait for the rest of it
+	msg := &MessageAuth{}
+	missing := missingChunkBytes(buf[:2+n])
+	if missing == 0 && n == MessageChunkBytesMax && msg.FromBytes(buf[:2+n]) != nil {
+		missing = 2 + MessageChunkBytesMin
+	}
+	if missing > 0 {
 		if n+missing > l {
 			return false, nil
 		}
@@ -104,10 +110,18 @@ func (m *MatchWinbox) Match(cx *layer4.Connection) (bool, error) {
 		if n += more; err != nil || n > l {
 			return false, err
 		}
+		if missing = missingChunkBytes(buf[:2+n]); missing > 0 {
+			if n+missing > l {
+				return false, nil
+			}
+			more, err = io.ReadAtLeast(cx, buf[2+n:], missing)
+			if n += more; err != nil || n > l {
+				return false, err
+			}
+		}
 	}
 
 	// Parse MessageAuth
-	msg := &MessageAuth{}
 	if err = msg.FromBytes(buf[:n+2]); err != nil {
 		return false, nil
 	}
